@@ -667,6 +667,91 @@ pub fn rule_for(prop: &str) -> String {
     format!("{how}{shape}An execution is non-trivial iff it contains {nt}. Two executions are distinct iff their abstract signatures differ: a hash over the sequence of (event kind, callback kind, phase before -> after, write route x parent colour x child colour class, weak-query outcome, number of destructors / releases class), with object ids and addresses erased. distinct_nontrivial counts signature values seen in non-trivial executions (hash sets merged across the 16 workers).")
 }
 
+/// Cells of the property's coverage matrix that this batch never hit. The universes are products,
+/// so a listed cell may be infeasible (e.g. a refused upgrade of a reachable target); a cell that
+/// is feasible and stays at zero means the workload or fault mix should change.
+pub fn zero_cells(prop: &str, cells: &BTreeMap<String, u64>) -> Vec<String> {
+    let phases = ["Sleeping", "Marking", "Marked", "Sweeping"];
+    let mut universe: Vec<String> = vec![];
+    let prefixes_of = |pre: &str, n: usize| -> std::collections::BTreeSet<String> { cells.keys().filter(|k| k.starts_with(pre)).map(|k| k.split('|').take(n).collect::<Vec<_>>().join("|")).collect() };
+    match prop {
+        "C08" | "C09" => {
+            for call in ["CollectDebt", "MarkDebt", "FinishMarking", "CycleDebt", "FinishCycle"] {
+                for p in phases {
+                    for d in ["zero", "eps", "moderate", "huge"] {
+                        for pc in ["paced", "stw"] {
+                            universe.push(format!("call|{call}|{p}|{d}|{pc}"));
+                        }
+                    }
+                }
+            }
+            universe.push("call|StartSweeping|Marked".into());
+        }
+        "C04" => {
+            for p in phases {
+                universe.push(format!("arena-drop|{p}"));
+            }
+        }
+        "C05" => {
+            for q in ["is_dropped", "upgrade-some", "upgrade-none"] {
+                for st in ["reachable", "weak-only", "destructed", "fresh"] {
+                    for p in phases {
+                        universe.push(format!("weakq|{q}|{st}|{p}"));
+                    }
+                }
+            }
+            // compare on the first four components
+            let hit = prefixes_of("weakq|", 4);
+            return universe.into_iter().filter(|u| !hit.contains(u)).collect();
+        }
+        "C06" => {
+            // every write route seen anywhere x every phase
+            let routes = prefixes_of("link:", 1).into_iter().chain(prefixes_of("linkweak:", 1)).chain(prefixes_of("barrier:", 1)).chain(["stash".to_string(), "root-write".to_string(), "root-write-weak".to_string()]);
+            let hit = prefixes_of("", 2);
+            let mut z = vec![];
+            for r in routes {
+                for p in phases {
+                    let c = format!("{r}|{p}");
+                    if !hit.contains(&c) {
+                        z.push(c);
+                    }
+                }
+            }
+            return z;
+        }
+        "C17" => {
+            for l in crate::lay::LAYS {
+                universe.push(format!("lay|{}", l.name));
+            }
+        }
+        "C18" => {
+            for k in ["Sized", "Swh", "Slice", "CopySlice", "Str", "StaticSwh", "SwhTokPod", "SwhPodTok"] {
+                let stages: &[&str] = match k {
+                    "Sized" => &["AbandonNew", "Complete"],
+                    "CopySlice" | "Str" => &["AbandonNew", "WrongLen"],
+                    "StaticSwh" => &["AbandonNew", "AbandonAfterHeader", "Complete"],
+                    "SwhTokPod" => &["AbandonNew", "AbandonAfterHeader", "PanicAt", "WrongLen", "Complete"],
+                    _ => &["AbandonNew", "AbandonAfterHeader", "PanicAt", "Complete"],
+                };
+                for st in stages {
+                    for p in phases {
+                        universe.push(format!("builder|{k}|{st}|{p}"));
+                    }
+                }
+            }
+        }
+        "C19" => {
+            for c in ["Erase", "Unsize", "Raw", "Weak", "Thin"] {
+                for p in phases {
+                    universe.push(format!("conv|{c}|{p}"));
+                }
+            }
+        }
+        _ => {}
+    }
+    universe.into_iter().filter(|u| !cells.contains_key(u)).collect()
+}
+
 #[allow(clippy::too_many_arguments)]
 pub fn write_evidence(prop: &str, tier: &str, seed: u64, b: &Batch, violations: u64, reported: &[serde_json::Value], known_lines: &[String], wall: f64) {
     let level = match prop {
@@ -674,7 +759,7 @@ pub fn write_evidence(prop: &str, tier: &str, seed: u64, b: &Batch, violations: 
         _ => "exploration",
     };
     let m = &b.merged;
-    let zero_cells: Vec<String> = vec![];
+    let zero_cells: Vec<String> = zero_cells(prop, &m.cells);
     let mut top_cells: Vec<(&String, &u64)> = m.cells.iter().collect();
     top_cells.sort();
     let cells: BTreeMap<String, u64> = top_cells.iter().map(|(k, v)| ((*k).clone(), **v)).collect();
